@@ -38,6 +38,134 @@ type c09Result struct {
 	outcome string
 }
 
+// c09HangUpExec: scenario clients-hang-up. A TCP client of listener 1 sends a request and closes its
+// connection at once; the TCP backend of listener 2 sends a request of its own over the connection
+// the proxy dialled to it and hangs up, while a request for that backend and a UDP request on
+// listener 1 are in flight: a connection's receive goroutine winds the connection up while a loop
+// still handles what it carried. Afterwards a new client is served.
+func c09HangUpExec(prefix []int) c09Result {
+	cfg := RCfg{Name: "svc.example.com", Listens: []RListen{
+		{Addr: "127.0.0.1", UDP: 5060, TCP: 5062, Backends: []string{"udp://127.0.1.2:7000", "udp://127.0.1.5:7000"}},
+		{Addr: "127.0.0.2", UDP: 5060, TCP: 5062, Backends: []string{"tcp://127.0.1.4:7000"}}}}
+	s := StartSim(ConfigYAML(cfg), SimOpts{})
+	defer s.Close()
+	for _, a := range []string{"127.0.1.2:7000", "127.0.1.5:7000"} {
+		c09UDPBackend(a)
+	}
+	// the TCP backend of listener 2 is a driver-side endpoint: it takes the connection the proxy dials,
+	// sends requests of its own over it and hangs up
+	beL := s.TCPListen("127.0.1.4:7000")
+	uaC := s.UDPPeer("127.0.0.7:5060")
+	cliA, err := s.TCPDial("127.0.0.9:0", "127.0.0.1:5062")
+	if err != nil {
+		panic(err)
+	}
+	cliB, err := s.TCPDial("127.0.0.8:0", "127.0.0.2:5062")
+	if err != nil {
+		panic(err)
+	}
+	s.Run()
+	// each connection has carried a request before (whatever the proxy learned from it is in place)
+	cliA.Write(c09Req("P1", "TCP", "127.0.0.9:5060", ""))
+	s.Run()
+	cliB.Write(c09Req("P2", "TCP", "127.0.0.8:5060", ""))
+	s.Run()
+	be := beL.Accept()
+	beReq := func(id string) []byte {
+		return MsgSpec{Method: "OPTIONS", RURI: "sip:x@nowhere.invalid", Vias: []string{"SIP/2.0/TCP 127.0.1.4:7000;branch=z9hG4bK" + id}, From: "<sip:be@be.example.net>;tag=f", To: "<sip:x@nowhere.invalid>",
+			CallID: "c09-" + id, CSeq: "1 OPTIONS"}.Build().Render()
+	}
+	if be != nil {
+		be.Write(beReq("Q1"))
+		s.Run()
+	}
+	s.EmittedAll()
+	s.W.SetExplore(vrt.KSched|vrt.KSelect, prefix)
+	cliA.Write(c09Req("A", "TCP", "127.0.0.9:5060", ""))
+	cliA.Close()
+	if be != nil {
+		// a request of the backend over the connection the proxy dialled, then the backend hangs up
+		be.Write(beReq("Q2"))
+		be.Close()
+	}
+	cliB.Write(c09Req("B", "TCP", "127.0.0.8:5060", ""))
+	uaC.Send("127.0.0.1:5060", c09Req("C", "UDP", "127.0.0.7:5060", ""))
+	s.Run()
+	// a new client on listener 1 (still under the explored schedule)
+	cliD, err := s.TCPDial("127.0.0.9:0", "127.0.0.1:5062")
+	if err == nil {
+		cliD.Write(c09Req("D", "TCP", "127.0.0.9:5060", ""))
+	}
+	s.Run()
+	res := c09Result{trace: s.W.TraceCopy()}
+	if vd := s.Verdict(); vd != "" {
+		res.clause, res.detail = "health", vd+"\n"+s.CrashDetail()
+		if strings.HasPrefix(vd, "crash") {
+			res.clause = "crash"
+		} else if strings.HasPrefix(vd, "deadlock") {
+			res.clause = "deadlock"
+		}
+		return res
+	}
+	reqTo := map[string][]string{}
+	respD := 0
+	for _, p := range s.EmittedAll() {
+		if p.Proto == "dial" {
+			continue
+		}
+		for _, id := range []string{"A", "B", "C", "D"} {
+			if bytes.Contains(p.Data, []byte("Call-ID: c09-"+id+"\r\n")) {
+				if !bytes.HasPrefix(p.Data, []byte("SIP/2.0")) {
+					reqTo[id] = append(reqTo[id], p.To)
+				} else if id == "D" && cliD != nil && p.Proto == "tcp" && p.Conn == cliD.Peer().ID() {
+					respD++
+				}
+			}
+		}
+	}
+	own := map[string][]string{"A": {"127.0.1.2:7000", "127.0.1.5:7000"}, "C": {"127.0.1.2:7000", "127.0.1.5:7000"}, "D": {"127.0.1.2:7000", "127.0.1.5:7000"}, "B": {"127.0.1.4:7000"}}
+	var oc []string
+	for _, id := range []string{"A", "B", "C", "D"} {
+		to := reqTo[id]
+		if id == "B" {
+			// its only backend hangs up at the same time: delivered over the old connection, over a new one, or lost with
+			// the old connection - never to somebody else
+			for _, t := range to {
+				if t != "127.0.1.4:7000" {
+					res.clause, res.detail = "request-to-foreign-backend", fmt.Sprintf("request B went to %s, not a backend of its listener", t)
+					return res
+				}
+			}
+			oc = append(oc, fmt.Sprintf("B:%d", len(to)))
+			continue
+		}
+		if len(to) != 1 {
+			res.clause, res.detail = "request-lost", fmt.Sprintf("request %s was sent to %v (expected exactly one backend of its listener; sender A hung up right after sending)", id, to)
+			if len(to) > 1 {
+				res.clause = "request-to-several-backends"
+			}
+			return res
+		}
+		ok := false
+		for _, o := range own[id] {
+			if o == to[0] {
+				ok = true
+			}
+		}
+		if !ok {
+			res.clause, res.detail = "request-to-foreign-backend", fmt.Sprintf("request %s went to %s, not a backend of its listener %v", id, to[0], own[id])
+			return res
+		}
+		oc = append(oc, id+":"+to[0])
+	}
+	if respD != 1 {
+		res.clause, res.detail = "response-not-returned-to-sender", fmt.Sprintf("the client that connected after the others had hung up got %d responses on its connection (expected 1)", respD)
+		return res
+	}
+	res.outcome = strings.Join(oc, " ")
+	return res
+}
+
 // c09LostExec: scenario connections-lost. Listener 1 has two TCP backends; both are connected by
 // two requests, then both peers close their connections; then two more requests (which have to
 // re-connect) and a TCP client on listener 2 are injected at once.
@@ -127,6 +255,9 @@ func c09LostExec(prefix []int) c09Result {
 func c09Exec(scenario string, prefix []int) c09Result {
 	if scenario == "connections-lost" {
 		return c09LostExec(prefix)
+	}
+	if scenario == "clients-hang-up" {
+		return c09HangUpExec(prefix)
 	}
 	be1 := "udp://be1.example.net:7000"
 	if scenario == "tcp-backend-churn" {
@@ -353,9 +484,9 @@ func c09RaceRun(c *Ctx) {
 		scenario string
 		bound    int
 	}
-	plans := []plan{{"two-clients", 2}, {"tcp-backend-churn", 1}, {"shrink", 1}, {"shrink-first", 1}, {"named-hops", 1}, {"static-routes", 2}, {"connections-lost", 1}}
+	plans := []plan{{"two-clients", 2}, {"tcp-backend-churn", 1}, {"shrink", 1}, {"shrink-first", 1}, {"named-hops", 1}, {"static-routes", 2}, {"connections-lost", 1}, {"clients-hang-up", 2}}
 	if c.Thorough() {
-		plans = []plan{{"two-clients", 3}, {"three-clients", 3}, {"tcp-backend-churn", 2}, {"shrink", 2}, {"shrink-first", 2}, {"named-hops", 2}, {"static-routes", 2}, {"connections-lost", 2}}
+		plans = []plan{{"two-clients", 3}, {"three-clients", 3}, {"tcp-backend-churn", 2}, {"shrink", 2}, {"shrink-first", 2}, {"named-hops", 2}, {"static-routes", 2}, {"connections-lost", 2}, {"clients-hang-up", 3}}
 	}
 	if v := os_Getenv("VERIF_C09_BOUND"); v != "" {
 		var b int
@@ -364,8 +495,12 @@ func c09RaceRun(c *Ctx) {
 			plans[i].bound = b
 		}
 	}
+	only := os_Getenv("VERIF_C09_ONLY") // development aid: one scenario
 	for _, pl := range plans {
 		pl := pl
+		if only != "" && pl.scenario != only {
+			continue
+		}
 		n, done := ExploreChoices(c, pl.bound, func(prefix []int) []vrt.Point {
 			r := c09Exec(pl.scenario, prefix)
 			cs := c09Case{pl.scenario, prefix}
@@ -396,6 +531,9 @@ func c09RaceRun(c *Ctx) {
 	}
 
 	// two call flows at once (zz_flows2.go): every explored execution under the race detector
+	if only != "" {
+		return
+	}
 	RunFlowsConcurrentRace(c, flowExactlyOnce(true), flowExactlyOnce(false), flowTransparent)
 }
 
